@@ -805,6 +805,11 @@ func (x *Exec) applyContract(st *State, in ssa.Instruction, fc *FuncContract, f 
 		st.assume(t, "ensures of "+shortName+" ["+c.Label+"]")
 	}
 	x.applyGhostSets(st, fc, mk(st))
+	if x.fc != nil && x.fc.CrashInv != nil && len(fc.GhostSets) > 0 {
+		// crash point: the process may die right after this effectful call
+		ctx := x.ctxFor(st, x.entry, nil)
+		x.oblige(st, "crash", fmt.Sprintf("%s#%d", lastName(shortName), x.callOrd[in]), x.evalBool(ctx, x.fc.CrashInv), x.fc.CrashInv.Text)
+	}
 	return res
 }
 
